@@ -1063,6 +1063,12 @@ func (ex *Exec) collectGuarded(v Value, seen map[interface{}]bool, cells *[]*Val
 		}
 	case SliceV:
 		if x.arr != nil {
+			if x.arr.w >= 0 && !x.arr.pool && x.off.IsConst() && x.len.IsConst() {
+				// a slice of scalars guards exactly its own index range: two working buffers carved
+				// from one backing array at disjoint ranges may be guarded by different locks
+				*objs = append(*objs, arrRange{x.arr, int(x.off.val), int(x.off.val + x.len.val)})
+				return
+			}
 			ex.collectArr(x.arr, seen, cells, objs)
 		}
 	case *StructV:
@@ -1207,6 +1213,13 @@ func init() {
 				}
 			}
 			for _, o := range objs {
+				if ar, ok := o.(arrRange); ok {
+					if ex.monitor.ranges == nil {
+						ex.monitor.ranges = map[*ArrObj][]guardedRange{}
+					}
+					ex.monitor.ranges[ar.a] = append(ex.monitor.ranges[ar.a], guardedRange{ar.lo, ar.hi, r})
+					continue
+				}
 				if _, dup := ex.monitor.objs[o]; !dup {
 					ex.monitor.objs[o] = r
 				}
